@@ -16,17 +16,36 @@ func vFirstOwnTermIndex(s *vSnap) (uint64, bool) {
 	return 0, false
 }
 
+// vRefCommittedThisTerm is the reference for "an entry of the current term is committed": terms never
+// decrease along the log, so this is the case iff the entry at commitIndex (the snapshot boundary included)
+// carries the current term.
+func vRefCommittedThisTerm(s *vSnap) bool {
+	ok := false
+	for i := 0; i < s.logLen; i++ {
+		ok = vOr(ok, vAnd(s.firstIndex+uint64(i) == s.commit, s.terms[i] == s.term))
+	}
+	return ok
+}
+
 func vh_SUB() {
 	ids := []string{"n1", "n2", "n3"}
-	single := vNondetBool("single-server")
-	if single {
+	// three voters; a cluster of one; one voter with two non-voting members (a cluster being grown, or shrunk)
+	members := "all-voters"
+	cluster := vChoose("cluster", 3)
+	single := cluster != 0 // this node is the only voter: it is a majority of the voters by itself
+	switch cluster {
+	case 1:
 		ids = []string{"n1"}
 		vTag("single", "yes")
+	case 2:
+		members = "sole-voter"
+		vTag("single", "with-non-voting-members")
 	}
 	peers := len(ids) - 1
 	n := vBuildNode(vNodeSpec{name: "l", self: "n1", ids: ids, maxLog: vBound("log"), dataLen: 1,
-		states: []State{Leader, Follower, PreCandidate, Candidate, Shutdown}, members: "all-voters"})
+		states: []State{Leader, Follower, PreCandidate, Candidate, Shutdown}, members: members})
 	r := n.r
+	commitSignals := vSignals(r.commitCond)
 	vAssume(n.log.LastTerm() <= r.currentTerm)                              // N1
 	vAssume(vImplies(r.state == Leader, n.log.LastTerm() == r.currentTerm)) // a leader's log ends in its own term
 	r.operationManager.shouldVerifyQuorum = vNondetBool("shouldVerify")
@@ -92,6 +111,12 @@ func vh_SUB() {
 		}
 		// replication is attempted towards every other member, with the entry already durable
 		vAssert(n.tr.sentCount("AE", true) == peers, "C04.replication-triggered-to-all-peers")
+		if single {
+			// the entry is on a majority of the voters the moment it is durable here: nobody else's reply may
+			// ever come (non-voting members can be down), so the commit loop has to be woken by this step
+			vAssertEngine(vSignals(r.commitCond) > commitSignals, "C15.sole-voter-commits-without-waiting-for-replies", "SubmitOperation on the only voter did not signal the commit loop")
+			vCover("sole-voter-replicated")
+		}
 		return
 	}
 	vCover("read-only")
@@ -123,7 +148,7 @@ func vh_SUB() {
 				// a single voter is its own majority: the round it just started confirms the read at once
 				for op, ch := range r.operationManager.pendingReadOnly {
 					if ch == f.responseCh {
-						vAssert(op.quorumVerified, "C05|C15.single-server-read-verified-by-its-own-round")
+						vAssert(op.quorumVerified, "C15.sole-voter-read-verified-by-its-own-round")
 					}
 				}
 			}
